@@ -18,14 +18,16 @@ def check_rejection_loop(ctx, res, config="all"):
     tl, atoms = tests_of(b)
     errs = []
     gens = [(i, t) for i, t in b.calls() if callee_name(t) == "gen_biguint" and i in b.live_blocks()]
-    if len(gens) != 1:
-        errs.append("expected exactly one gen_biguint call in the loop, found %d" % len(gens))
+    if len(gens) < 1:
+        errs.append("no gen_biguint call found")
     else:
+        # every draw (there may be one before the loop and one in it) asks for exactly bound.bits() bits
+        gis = {gi for gi, gt in gens}
+        for gi, gt in gens:
+            ba = atoms.of_operand(gt["args"][1])
+            if not ("bits" in calls_of(ba) and params_of(ba) == {2} and calls_of(ba) <= {"bits"} and not consts_of(ba)):
+                errs.append("the candidate's bit size is not exactly bound.bits() (%s)" % sorted(calls_of(ba)))
         gi, gt = gens[0]
-        # bit count = bound.bits()
-        ba = atoms.of_operand(gt["args"][1])
-        if not ("bits" in calls_of(ba) and params_of(ba) == {2} and calls_of(ba) <= {"bits"} and not consts_of(ba)):
-            errs.append("the candidate's bit size is not exactly bound.bits() (%s)" % sorted(calls_of(ba)))
         cand = gt["dest"]["local"]
         # the only returns: _0 = move candidate, on the true edge of a strict candidate < bound
         rets = b.return_blocks()
@@ -40,8 +42,8 @@ def check_rejection_loop(ctx, res, config="all"):
                 a1 = c.term["args"][1]
                 r0 = core.Flow(b).roots_of_operand(a0)
                 r1 = core.Flow(b).roots_of_operand(a1)
-                is_c0 = any(r[0] == "call" and r[1] == gi for r in r0)
-                is_c1 = any(r[0] == "call" and r[1] == gi for r in r1)
+                is_c0 = bool(r0) and all(r[0] == "call" and r[1] in gis for r in r0)
+                is_c1 = bool(r1) and all(r[0] == "call" and r[1] in gis for r in r1)
                 is_b0 = any(r[0] == "param" and r[1] == 2 for r in r0)
                 is_b1 = any(r[0] == "param" and r[1] == 2 for r in r1)
                 if c.name == "lt" and is_c0 and is_b1:
@@ -61,7 +63,7 @@ def check_rejection_loop(ctx, res, config="all"):
             errs.append("no strict `candidate < bound` test dominates the return")
         # returned value is the candidate itself
         rr = core.Flow(b).roots_of_local(0)
-        if not all(r[0] == "call" and r[1] == gi for r in rr) or not rr:
+        if not all(r[0] == "call" and r[1] in gis for r in rr) or not rr:
             errs.append("the returned value is not the accepted candidate itself")
         # the rejecting edge loops back to a fresh draw (gen call reachable from the false edge)
     if errs:
@@ -125,6 +127,7 @@ def check_gen_bigint(ctx, res, config="all"):
         for blocks, dec in _paths(b, gt["target"], {gi, fi}):
             z = None
             coins = {}
+            infeasible = False
             for (sb, tgt) in dec:
                 t = by_bb.get(sb)
                 if t is None or t.cond is None:
@@ -133,13 +136,19 @@ def check_gen_bigint(ctx, res, config="all"):
                 c = t.cond
                 val = True if tgt == t.t else (False if tgt == t.f else None)
                 if c.kind == "call" and c.name == "is_zero" and c.args and "gen_biguint" in calls_of(c.args[0]):
+                    if z is not None and z != val:
+                        infeasible = True  # the same is_zero() result tested twice with different outcomes
                     z = val
                 elif c.kind == "call" and c.name == "gen" and c.bb in coin:
+                    if c.bb in coins and coins[c.bb] != val:
+                        infeasible = True
                     coins[c.bb] = val
                 elif c.kind in ("const",):
                     pass
                 else:
                     undecided = True
+            if infeasible:
+                continue
             if blocks[-1] == gi:
                 outcome = "re-draw"
             else:
